@@ -127,6 +127,27 @@ def cases_from(results_by_set, maxops, min_ops=0):
     return cases, cnt
 
 
+RZ_B0 = {"quick": 6, "thorough": 8}
+RZ_PICK = {"quick": 6, "thorough": 12}
+RZ_MAX = {"quick": 360, "thorough": 4000}
+
+
+def realize_cases(cases, tier, seed, skip):
+    """specifications small enough for the product search: all with at least two memory operations first, then a sample of the rest"""
+    ok = [c for c in cases if c["id"] not in skip and 0 < c["sfs"]["b0"] <= RZ_B0[tier] and len(c["sfs"]["ins"]) <= 9]
+    first = [c for c in ok if c["nops"] >= 2]
+    rest = [c for c in ok if c["nops"] < 2]
+    n = RZ_MAX[tier]
+    sel = corpus.sample(first, min(len(first), n * 3 // 4), seed) if len(first) > n * 3 // 4 else first
+    sel = sel + corpus.sample(rest, max(0, min(len(rest), n - len(sel))), seed + 1)
+    out = []
+    for c in sel:
+        d = dict(c)
+        d["pick"] = RZ_PICK[tier]
+        out.append(d)
+    return out
+
+
 def run(tier):
     t0 = time.time()
     seed = common.seed()
@@ -153,12 +174,29 @@ def run(tier):
             undec += 1
         elif cl[0] == "diagnostic":
             diag += 1
+    # (M/V) the composition with the symbolic stack machine: every sequence spec/SFSMachine.tla accepts for the specification within
+    # its published bounds, executed concretely, must leave what the sub-block leaves (spec/SFSRealize.tla)
+    rz = realize_cases(cases, tier, seed, {c["id"] for c, _ in viol})
+    rv, rgoals, rst, rfin = denote.run_realize(rz, 48, timeout=420 if tier == "quick" else 2400)
+    rz_viol = 0
+    for c in rz:
+        bad = [v for v in rv.get(c["id"], []) if str(v[1]).startswith("realize") or v[1] == "misaligned"]
+        if bad:
+            rz_viol += 1
+            viol.append((c, ("violates", bad[0][1], bad[0][0], len(bad), bad[0][2:])))
+    if rz and not rgoals:
+        raise common.MachineryError("vacuity guard: the product machine reached no goal state")
     out = findings.settle("C02", viol, lambda c: {"sub_block": c["_sub"], "block": c["_block"], "options": c["_opt"], "deps": c["_deps"],
                                                   "key": c["_sub"] + " @" + c["_opt"]},
                           lambda c: [c["_sub"] + " @" + c["_opt"]] + (["misaligned-overlap"] if findings.misaligned_overlap(c["_sub"]) else []))
     if multi == 0:
         raise common.MachineryError("vacuity guard: no specification with two or more memory operations was explored")
-    cov = {"states": st["states"] + mstates, "transitions": st["transitions"] + mstates, "memdeps_model_states": mstates, "traces_validated_against_impl": len(cases),
+    realize = {"specifications": len(rz), "finished": len(rfin), "with_goal": len(rgoals), "goal_states_checked": sum(rgoals.values()),
+               "states": rst["states"], "transitions": rst["transitions"], "budget_exceeded_shards": rst["timeouts"], "violating": rz_viol,
+               "bound_b0": RZ_B0[tier], "grid_sample": RZ_PICK[tier], "tlc_wall_s": round(rst["wall"], 1),
+               "rule": "every instruction sequence accepted by SFSMachine within init_progr_len / max_sk_sz, executed on the concrete machine "
+                       "in lock step (SFSRealize), compared at Goal with the run of the sub-block"}
+    cov = {"states": st["states"] + mstates + rst["states"], "transitions": st["transitions"] + mstates + rst["transitions"], "realize": realize, "memdeps_model_states": mstates, "traces_validated_against_impl": len(cases),
            "samples": [{"sub_block": c["_sub"], "deps": c["_deps"], "options": c["_opt"], "memops": c["nops"]} for c in cases[:3] + cases[-3:]],
            "evaluations": cnt["specs"], "distinct_nontrivial": multi,
            "rule": "one evaluation = one sub-block specification produced by the real front-end; distinct = distinct (specification, sub-block); "
